@@ -1535,6 +1535,31 @@ impl<'w> Gen<'w> {
             self.step(&x(o.as_str(), vec![], MMsg::RB { id: *id }));
             self.pop();
         }
+        // repeated forged top-ups of the same records (the second call meets the forger's own entry): whatever
+        // they do stays confined to entries naming the forger; then the owner cashes out
+        if let Some(h) = hs.first() {
+            self.push();
+            for ((o, id), _) in bs.iter().take(2) {
+                let v = RawAddr::valid(o.as_str());
+                for amount in [5u128, 50, 7] {
+                    self.step(&x(h, vec![], MMsg::RC { sender: v.clone(), amount, inner: Inner::AB { id: *id } }));
+                }
+                for tid in ["t001", "t002"] {
+                    self.step(&x(h, vec![], MMsg::RN { sender: v.clone(), token_id: tid.into(), inner: Inner::AB { id: *id } }));
+                }
+            }
+            for (_, l) in ls.iter().filter(|p| p.1.status == Status::BeingPrepared).take(2) {
+                let v = RawAddr::valid(l.creator.as_str());
+                for amount in [5u128, 50] {
+                    self.step(&x(h, vec![], MMsg::RC { sender: v.clone(), amount, inner: Inner::AL { id: l.id } }));
+                }
+                self.step(&x(h, vec![], MMsg::RN { sender: v.clone(), token_id: "t001".into(), inner: Inner::AL { id: l.id } }));
+            }
+            for ((o, id), _) in bs.iter().take(2) {
+                self.step(&x(o.as_str(), vec![], MMsg::RB { id: *id }));
+            }
+            self.pop();
+        }
         // accounts (not contracts) calling the hooks directly
         let u = self.user();
         if let Some(((o, id), _)) = bs.first() {
